@@ -20,6 +20,12 @@ VALUES = {"--strip": ["1", "0", "12"], "--fuzz": ["0", "3"], "--newline-output":
           "--reject-format": ["context", "unified"], "--quoting-style": ["literal", "shell", "shell-always", "c"]}
 
 
+def dec_argv(c):
+    """the argument vector of an ARGV case line ('.' stands for an empty argument)"""
+    f = c.split()[3]
+    return [] if f == "-" else [("" if a == "." else unhx(a).decode("latin-1")) for a in f.split(",")]
+
+
 def A(args, px=0, q="none"):
     return "ARGV %d %s %s" % (px, q if q == "none" else hx(q), ",".join((hx(a) if a else ".") for a in args) or "-")
 
@@ -120,18 +126,18 @@ def run(prop, tier, seed):
     for i, c in enumerate(cases):
         run_.count(c, True, "spelling group" if gid[i] >= 0 else ("bad command line" if gid[i] == -1 else ("numeric spelling" if gid[i] == -3 else "environment")))
         if impl[i] != model[i]:
-            mism.append((i, "L1 ARGV", dict(case=c, impl=impl[i], model=model[i], argv=[unhx(a).decode("latin-1") if a != "." else "" for a in c.split()[3].split(",")] if c.split()[3] != "-" else [])))
+            mism.append((i, "L1 ARGV", dict(case=c, impl=impl[i], model=model[i], argv=dec_argv(c))))
         if gid[i] >= 0:
             if impl[i] == "THROW":
-                bad.append((i, "a valid spelling is rejected", dict(case=c, argv=[unhx(a).decode("latin-1") for a in c.split()[3].split(",")])))
+                bad.append((i, "a valid spelling is rejected", dict(case=c, argv=dec_argv(c))))
             elif gid[i] in first and impl[first[gid[i]]] != impl[i]:
                 j = first[gid[i]]
                 bad.append((i, "two spellings of the same command line give different options",
-                            dict(a=[unhx(a).decode("latin-1") for a in cases[j].split()[3].split(",")], b=[unhx(a).decode("latin-1") for a in c.split()[3].split(",")],
+                            dict(a=dec_argv(cases[j]), b=dec_argv(c),
                                  opts_a=impl[j], opts_b=impl[i])))
             first.setdefault(gid[i], i)
         elif gid[i] == -1 and impl[i] != "THROW":
-            bad.append((i, "a bad command line is accepted", dict(case=c, argv=[unhx(a).decode("latin-1") for a in c.split()[3].split(",")], impl=impl[i])))
+            bad.append((i, "a bad command line is accepted", dict(case=c, argv=dec_argv(c), impl=impl[i])))
     # whole program: exit status 2 and no file touched
     scns = []
     for argv in bad_lines:
